@@ -644,3 +644,244 @@ Print Assumptions C03_ts_vargmin_binary64.
 Print Assumptions C03_ts_vargmax_binary64.
 Print Assumptions C03_ts_vrank_binary64_input.
 Print Assumptions C03_some_nan_is_outside_the_property.
+
+(* ================= AUDIT (notes/C03.md "Audit matrix"; Proofs/Audit03.v) ============================================
+   (A1)-(A8) hold for every carrier / dictionary and are axiom-free (A5: any ordered carrier); (A9), (A10) are over
+   option R; (A11)-(A12) at binary64.                                                                                 *)
+From Tevec Require Import Proofs.Audit03.
+
+(* (A1) the rejected and the trivial inputs of the seven entry points, totally — this is what the hypotheses `1 <= w`
+   and `1 <= length xs` of (1)-(6) exclude.  Empty series: the empty result at every window, both bodies (the cmp
+   family clamps the window to 0 and `assert!(window > 0 || len == 0)` passes).  Window 0 on a non-empty series: the
+   assertion fails, both bodies, before any element is read. *)
+Theorem C03_empty_series :
+  forall (A : Type) (NA : Num A) (T : Type) (DT : IsNone T A) (B : Type) (NB : Num B)
+         (body : bool) (w : nat) (mp : option nat) (pct rev : bool) (tmin tmax : A),
+    ts_vmin body w mp (@nil T) = Done [] /\ ts_vmax body w mp (@nil T) = Done [] /\
+    ts_vargmin body w mp (@nil T) = Done [] /\ ts_vargmax body w mp (@nil T) = Done [] /\
+    ts_vrank (B := B) body w mp pct rev (@nil T) = Done [] /\
+    ts_vminmaxnorm tmin tmax body w mp (@nil T) = Done [] /\
+    ts_vzscore body w mp (@nil T) = Done [].
+Proof.
+  intros A NA T DT B NB body w mp pct rev tmin tmax.
+  split; [apply (cmp_family_empty sort_cmp)|]. split; [apply (cmp_family_empty sort_cmp_rev)|].
+  split; [apply (cmp_family_empty sort_cmp)|]. split; [apply (cmp_family_empty sort_cmp_rev)|].
+  split; [apply vrank_empty|]. split; [apply minmaxnorm_empty|].
+  rewrite zscore_total. unfold bad_window. cbn. rewrite Bool.andb_false_r. reflexivity.
+Qed.
+
+Theorem C03_window0_rejected :
+  forall (A : Type) (NA : Num A) (T : Type) (DT : IsNone T A) (B : Type) (NB : Num B)
+         (body : bool) (mp : option nat) (pct rev : bool) (tmin tmax : A) (xs : list T),
+    xs <> [] ->
+    ts_vmin body 0 mp xs = Panicked AssertFail /\ ts_vmax body 0 mp xs = Panicked AssertFail /\
+    ts_vargmin body 0 mp xs = Panicked AssertFail /\ ts_vargmax body 0 mp xs = Panicked AssertFail /\
+    ts_vrank (B := B) body 0 mp pct rev xs = Panicked AssertFail /\
+    ts_vminmaxnorm tmin tmax body 0 mp xs = Panicked AssertFail /\
+    ts_vzscore body 0 mp xs = Panicked AssertFail.
+Proof.
+  intros A NA T DT B NB body mp pct rev tmin tmax xs Hx.
+  split; [apply (cmp_family_window0 sort_cmp); exact Hx|]. split; [apply (cmp_family_window0 sort_cmp_rev); exact Hx|].
+  split; [apply (cmp_family_window0 sort_cmp); exact Hx|]. split; [apply (cmp_family_window0 sort_cmp_rev); exact Hx|].
+  split; [apply vrank_window0; exact Hx|]. split; [apply minmaxnorm_window0; exact Hx|].
+  rewrite zscore_total. destruct xs; [contradiction|reflexivity].
+Qed.
+
+(* (A2) w >= len: the cmp family clamps the window to the length, so the outcome is that of window = len — for EVERY
+   min_periods, omitted included, every carrier *)
+Theorem C03_window_clamped_to_length :
+  forall (A : Type) (NA : Num A) (T : Type) (DT : IsNone T A) (B : Type) (NB : Num B)
+         (body : bool) (w : nat) (mp : option nat) (pct rev : bool) (xs : list T),
+    length xs <= w ->
+    ts_vmin body w mp xs = ts_vmin body (length xs) mp xs /\ ts_vmax body w mp xs = ts_vmax body (length xs) mp xs /\
+    ts_vargmin body w mp xs = ts_vargmin body (length xs) mp xs /\
+    ts_vargmax body w mp xs = ts_vargmax body (length xs) mp xs /\
+    ts_vrank (B := B) body w mp pct rev xs = ts_vrank (B := B) body (length xs) mp pct rev xs.
+Proof.
+  intros A NA T DT B NB body w mp pct rev xs H.
+  split; [apply (cmp_family_window_clamped sort_cmp); exact H|].
+  split; [apply (cmp_family_window_clamped sort_cmp_rev); exact H|].
+  split; [apply (cmp_family_window_clamped sort_cmp); exact H|].
+  split; [apply (cmp_family_window_clamped sort_cmp_rev); exact H|apply vrank_window_clamped; exact H].
+Qed.
+
+(* (A3) omitted min_periods (DESIGN 5.3): it IS Some ((min len w) / 2) — w / 2 when len >= w, len / 2 when len < w (the
+   norm family uses min(w / 2, w) = w / 2 of the UNclamped window: Model/Features.mp_eff) *)
+Theorem C03_omitted_min_periods :
+  forall (A : Type) (NA : Num A) (T : Type) (DT : IsNone T A) (B : Type) (NB : Num B)
+         (body : bool) (w : nat) (pct rev : bool) (xs : list T),
+    let d := Some (Nat.min (length xs) w / 2) in
+    ts_vmin body w None xs = ts_vmin body w d xs /\ ts_vmax body w None xs = ts_vmax body w d xs /\
+    ts_vargmin body w None xs = ts_vargmin body w d xs /\ ts_vargmax body w None xs = ts_vargmax body w d xs /\
+    ts_vrank (B := B) body w None pct rev xs = ts_vrank (B := B) body w d pct rev xs /\
+    (w <= length xs -> cmp_mp None (cmp_window w xs) = w / 2) /\
+    (length xs <= w -> cmp_mp None (cmp_window w xs) = length xs / 2).
+Proof.
+  intros A NA T DT B NB body w pct rev xs d. repeat split; try reflexivity;
+    intros H; unfold cmp_mp, cmp_window; [rewrite Nat.min_r|rewrite Nat.min_l]; try exact H; reflexivity.
+Qed.
+
+(* (A4) min_periods above the clamped window is NOT clamped in this family: every output is null.  Any ordered carrier. *)
+Theorem C03_min_periods_above_window_all_null :
+  forall (A : Type) (NA : Num A), OrdLaws A ->
+  forall (T : Type) (DT : IsNone T A) (body : bool) (w m : nat) (xs : list T),
+    valid_not_nan xs -> 1 <= w -> 1 <= length xs -> cmp_window w xs < m ->
+    ts_vmin body w (Some m) xs = Done (repeat None (length xs)) /\
+    ts_vmax body w (Some m) xs = Done (repeat None (length xs)) /\
+    ts_vargmin body w (Some m) xs = Done (repeat None (length xs)) /\
+    ts_vargmax body w (Some m) xs = Done (repeat None (length xs)).
+Proof. intros A NA OL T DT. exact (min_periods_above_window_all_null OL). Qed.
+
+(* (A5) ties — "the most recent one": glast_pos m W = Some o says position o holds a valid element equivalent to m and
+   NO LATER position does; at Z: holds m itself, no later position holds m.  The offsets lie in 1..=|W|. *)
+Theorem C03_last_position_meaning :
+  forall (A : Type) (NA : Num A) (W : list (option A)) (m : A) (o : nat),
+    glast_pos m W = Some o ->
+    (exists x, nth_error W o = Some (Some x) /\ neqb x m = true) /\
+    (forall j x, o < j -> nth_error W j = Some (Some x) -> neqb x m = false).
+Proof. intros A NA. exact glast_pos_sound. Qed.
+
+Theorem C03_last_position_meaning_integer :
+  forall (W : list (option Z)) (m : Z) (o : nat),
+    last_pos m W = Some o ->
+    nth_error W o = Some (Some m) /\ forall j, o < j -> nth_error W j <> Some (Some m).
+Proof. exact last_pos_sound. Qed.
+
+Theorem C03_argmax_spec_meaning :
+  forall (W : list (option Z)) (o : nat),
+    argmax_spec W = Some o ->
+    exists m, list_max (validZ W) = Some m /\ 1 <= o /\ last_pos m W = Some (o - 1).
+Proof. exact argmax_spec_meaning. Qed.
+
+Theorem C03_gargmax_spec_meaning :
+  forall (A : Type) (NA : Num A) (W : list (option A)) (o : nat),
+    gargmax_spec W = Some o ->
+    exists m, ExtremaOrd.gmax (gvalid W) = Some m /\ 1 <= o /\ glast_pos m W = Some (o - 1).
+Proof. intros A NA. exact gargmax_spec_meaning. Qed.
+
+Theorem C03_arg_offsets_in_window :
+  forall (A : Type) (NA : Num A) (W : list (option A)) (o : nat),
+    (gargmin_spec W = Some o \/ gargmax_spec W = Some o) -> 1 <= o <= length W.
+Proof. intros A NA. exact garg_offsets_in_window. Qed.
+
+(* (A9) ts_vminmaxnorm: the cached (max_idx, min_idx) are the LAST positions of the window's extremes (`>=` / `<=` take
+   the newcomer), so when BOTH have expired the element that left was the only holder of both — the window the arm
+   would re-scan has no valid element.  Hence the loop body of the both-expired arm (norm.rs:146-151: the five lines
+   the coverage report shows the correspondence run never reaches) is dead code: the model with that loop body
+   deleted (ts_vminmaxnorm_nd: `(max, min) = (min_(), max_())`, indices untouched) returns exactly what the model of
+   the code returns — every series within the sentinels, every window (0 included), min_periods, both bodies. *)
+Theorem C03_minmaxnorm_both_expired_arm_is_dead_code :
+  forall (lo hi : R) (body : bool) (w : nat) (mp : option nat) (xs : list XR),
+    (forall r, In (Some r) xs -> (lo <= r <= hi)%R) ->
+    ts_vminmaxnorm (Some lo) (Some hi) body w mp xs = ts_vminmaxnorm_nd lo hi body w mp xs.
+Proof. exact minmaxnorm_both_expired_arm_is_dead. Qed.
+
+(* (A10) the reason, as a statement about every reachable state: whenever both cached indices are before the new
+   window start, the positions the arm would scan hold no valid element *)
+Theorem C03_minmaxnorm_both_expired_window_is_null :
+  forall (lo hi : R) (xs : list XR) (wd : nat), 1 <= wd ->
+  forall (k : nat) (s : @mm XR) (a : nat),
+    k <= length xs -> PreMM lo hi xs wd k s -> LastMM xs wd k s ->
+    start_of wd k = Some a -> mm_maxi s < a -> mm_mini s < a ->
+    forall j, a <= j < k -> xv xs j = None.
+Proof. intros lo hi xs wd Hwd. exact (both_expired_window_is_null lo hi xs wd Hwd). Qed.
+
+Example C03_example_audit_premises :
+  cmp_window 5 [1%Z; 2%Z] < 3 /\ 2 <= 5 /\ glast_pos 1%Z [Some 1%Z; Some 1%Z; None] = Some 1 /\
+  gargmax_spec [Some 1%Z; Some 3%Z; Some 3%Z] = Some 3.
+Proof. repeat split; vm_compute; auto. Qed.
+(* (A4) is not vacuous: omitted min_periods on a short series is len/2 = 1, so outputs are non-null; 3 > 2 nulls all *)
+Example C03_example_audit_above_window :
+  ts_vmin (DT := Dopt) true 5 None [Some 1%Z; Some 2%Z] = Done [Some 1%Z; Some 1%Z] /\
+  ts_vmin (DT := Dopt) true 5 (Some 3) [Some 1%Z; Some 2%Z] = Done [None; None].
+Proof. split; vm_compute; reflexivity. Qed.
+(* (A10) premise: both indices expired does happen (the arm itself IS reached: [1; null; null], w = 2, step 2) *)
+Example C03_example_audit_both_expired :
+  start_of 2 2 = Some 1 /\ LastMM [Some 1%R; None; None] 2 0 (mm0 (Some 0%R) (Some 2%R)).
+Proof. split; [reflexivity|apply LastMM_init; auto]. Qed.
+
+Print Assumptions C03_empty_series.
+Print Assumptions C03_window0_rejected.
+Print Assumptions C03_window_clamped_to_length.
+Print Assumptions C03_omitted_min_periods.
+Print Assumptions C03_min_periods_above_window_all_null.
+Print Assumptions C03_last_position_meaning.
+Print Assumptions C03_last_position_meaning_integer.
+Print Assumptions C03_argmax_spec_meaning.
+Print Assumptions C03_gargmax_spec_meaning.
+Print Assumptions C03_arg_offsets_in_window.
+Print Assumptions C03_minmaxnorm_both_expired_arm_is_dead_code.
+Print Assumptions C03_minmaxnorm_both_expired_window_is_null.
+
+From Coq Require Import Floats.
+(* (A11) binary64, Option<f64> (only `None` is null): the four order theorems under the premise of DESIGN 5.4 (no
+   Some(NaN)) — the witness (7) C03_some_nan_is_outside_the_property shows the premise cannot be dropped *)
+Theorem C03_cmp_family_binary64_option :
+  forall (body : bool) (w : nat) (mp : option nat) (xs : list (option PrimFloat.float)),
+  valid_not_nan (DT := IsNoneOptF64) xs -> 1 <= w -> 1 <= length xs ->
+  (exists out, ts_vmin (DT := IsNoneOptF64) body w mp xs = Done out /\ length out = length xs /\
+     forall i, i < length xs ->
+       nth_error out i =
+       Some (let V := gvalid (win w i (map to_opt xs)) in
+             if cmp_mp mp (cmp_window w xs) <=? length V then ExtremaOrd.gmin V else None)) /\
+  (exists out, ts_vmax (DT := IsNoneOptF64) body w mp xs = Done out /\ length out = length xs /\
+     forall i, i < length xs ->
+       nth_error out i =
+       Some (let V := gvalid (win w i (map to_opt xs)) in
+             if cmp_mp mp (cmp_window w xs) <=? length V then ExtremaOrd.gmax V else None)) /\
+  (exists out, ts_vargmin (DT := IsNoneOptF64) body w mp xs = Done out /\ length out = length xs /\
+     forall i, i < length xs ->
+       nth_error out i =
+       Some (let W := win w i (map to_opt xs) in
+             if cmp_mp mp (cmp_window w xs) <=? length (gvalid W) then gargmin_spec W else None)) /\
+  (exists out, ts_vargmax (DT := IsNoneOptF64) body w mp xs = Done out /\ length out = length xs /\
+     forall i, i < length xs ->
+       nth_error out i =
+       Some (let W := win w i (map to_opt xs) in
+             if cmp_mp mp (cmp_window w xs) <=? length (gvalid W) then gargmax_spec W else None)).
+Proof. exact cmp_optf64. Qed.
+
+(* (A12) binary64: min_periods above the clamped window nulls everything (instance of (A4) through the float laws) *)
+Theorem C03_min_periods_above_window_binary64 :
+  forall (body : bool) (w m : nat) (xs : list PrimFloat.float),
+    1 <= w -> 1 <= length xs -> cmp_window w xs < m ->
+    ts_vmin (DT := IsNoneF64) body w (Some m) xs = Done (repeat None (length xs)) /\
+    ts_vmax (DT := IsNoneF64) body w (Some m) xs = Done (repeat None (length xs)) /\
+    ts_vargmin (DT := IsNoneF64) body w (Some m) xs = Done (repeat None (length xs)) /\
+    ts_vargmax (DT := IsNoneF64) body w (Some m) xs = Done (repeat None (length xs)).
+Proof.
+  intros body w m xs. apply (min_periods_above_window_all_null ordlaws_F64). intros v _ H. exact H.
+Qed.
+
+(* the binary64 model on +0 / -0 ties, a NaN and an expiring extreme = the generic specification (by evaluation) *)
+Example C03_example_binary64_ties :
+  ts_vmin (DT := IsNoneF64) true 2 (Some 0) [0%float; (-0)%float; PrimFloat.nan; 3%float; 2%float] =
+  Done (map (fun i => ExtremaOrd.gmin (gvalid (win 2 i (map (to_opt (H := IsNoneF64))
+                        [0%float; (-0)%float; PrimFloat.nan; 3%float; 2%float])))) (seq 0 5)).
+Proof. exact f64_example_min. Qed.
+Example C03_example_valid_not_nan_optf64 :
+  valid_not_nan (DT := IsNoneOptF64) [Some 1%float; None; Some 3%float].
+Proof. intros v [<-|[<-|[<-|[]]]] H; try discriminate; vm_compute; reflexivity. Qed.
+
+Print Assumptions C03_cmp_family_binary64_option.
+Print Assumptions C03_min_periods_above_window_binary64.
+
+(* (A13) ts_vzscore on EVERY numeric carrier and null dictionary (the binary64 execution instance included), both bodies:
+   the output is the carrier's NaN whenever the current element is null or the window holds fewer than
+   min(min_periods or w/2, w) non-null elements (cnt_valid: Proofs/Audit01.v) — the count and the "current element"
+   of the closure never drift, whatever the arithmetic does.  Axiom-free. *)
+From Tevec Require Import Proofs.Audit01.
+Theorem C03_zscore_nan_every_carrier :
+  forall (A : Type) (NA : Num A) (T : Type) (DT : IsNone T A) (body : bool) (w : nat) (mp : option nat) (xs : list T),
+    1 <= w ->
+    exists out, ts_vzscore body w mp xs = Done out /\ length out = length xs /\
+      forall i v, nth_error xs i = Some v ->
+        (not_none v = false \/ cnt_valid (win w i xs) < mp_eff mp w 0) -> nth_error out i = Some nnan.
+Proof. intros A NA T DT. exact (@zscore_nan_every_carrier A NA T DT). Qed.
+
+Example C03_example_zscore_nan_binary64 :      (* both premises occur: a short window (position 0), a NaN element (position 1) *)
+  exists a b, ts_vzscore (NA := NumF64) (DT := IsNoneF64) true 3 (Some 2) [1; nan; 2; 4]%float = Done [nan; nan; a; b]%float /\
+              PrimFloat.is_nan a = false /\ PrimFloat.is_nan b = false.
+Proof. do 2 eexists. split; [vm_compute; reflexivity|split; vm_compute; reflexivity]. Qed.
+
+Print Assumptions C03_zscore_nan_every_carrier.
